@@ -1,6 +1,7 @@
 """Property -> rules table (single source of truth for vcheck and MANIFEST.json)."""
 import r_reset
 import r_share
+import r_map
 
 NA = {
     "C17": "first-match order of a backtracking trie matcher over runtime rule lists: no structural "
@@ -10,6 +11,24 @@ NA = {
 }
 
 PROPS = {
+    "C06": {
+        "rules": [r_map.run],
+        "explanation": "MAP rules over the MIR of Dictionary::map_connection_ids_from_iter, "
+                       "reset_user_lexicon_from_reader and every map_connection_ids method: the "
+                       "one mapper reaches every id-carrying component on all successful paths "
+                       "(components enumerated from the struct definition), the mapper is stored "
+                       "and composed previous-then-new, wrong lengths take an error path before "
+                       "any component is touched, later user lexicons are translated then "
+                       "verified, and every id-indexed field of each connector is rebuilt.",
+        "level_text": "Static path and dataflow rules (must-pass-through, dominance, access "
+                      "paths) decide the structural clauses of C06 for every mapping and "
+                      "dictionary; the numeric correctness of each permutation loop is not "
+                      "decided (DESIGN.md section 3).",
+        "level_note": "Trusted: rustc MIR; spec/mapfields.json classification of connector "
+                      "fields (checked for completeness against the struct definitions); "
+                      "spec/api_model.json.",
+        "technique": "MIR must-pass-through / dominance rules over access paths, who-may-write",
+    },
     "C04": {
         "rules": [r_reset.run_tokens, r_share.run],
         "thorough": [r_share.run_thorough],
